@@ -394,7 +394,7 @@ def worker(job):
             sub.count('histories_not_judged_after:' + info.tainted)
             continue
         k = 0
-        first_bad = None
+        bad = []
         for pos, (kind, v) in enumerate(steps):
             if kind != 's': continue
             r = res[k]; k += 1
@@ -404,10 +404,10 @@ def worker(job):
             if c is None: raise core.HarnessError('no cold reference for %s after %r' % (P.POOL[v].name, ms))
             sub.count('results_compared')
             if ms and c != COLD[(v, ())]: sub.count('results_compared_where_the_modifications_change_the_answer')
-            if r != c and first_bad is None: first_bad = (pos, r, c)
-        if first_bad is not None:
+            if r != c: bad.append((pos, r, c))
+        if bad:
             sub.count('histories_with_a_mismatch')
-            report(sub, steps, *first_bad)
+            for b in bad: report(sub, steps, *b)     # every disagreeing position is shrunk and attributed on its own
         elif nh % 997 == 1:
             sub.sample(dict(history=names(steps), results=[json.loads(r) for r in res]), limit=1)
     d = sub.dump()
@@ -441,9 +441,8 @@ def run(ctx):
         # ---- in-process emulation of a pristine process must agree with the real thing for every single statement
         for i in range(n):
             res, info = run_history([('s', i)])
-            if res[0] != COLD[(i, ())]:
-                raise core.HarnessError('after restoring the pristine containers %s gives %s, a pristine process %s'
-                                        % (pool[i].name, res[0][:200], COLD[(i, ())][:200]))
+            ctx.count('single_statements_emulated_in_process')
+            if res[0] != COLD[(i, ())]: report(ctx, (('s', i),), 0, res[0], COLD[(i, ())])
         # ---- two long histories, each inside ONE pristine process
         order = ctx.shuffled(range(n)) if ctx.seed else list(range(n))
         for seq in (order, order[::-1]):
@@ -474,19 +473,23 @@ def run(ctx):
             core.absorb(ctx, d)
         if executed != expected: raise core.HarnessError('%d histories enumerated, %d executed' % (expected, executed))
         # ---- confirm every shape in fresh forked children (history and reference)
-        unconfirmed = 0
         for sig in sorted(ctx.found):
             case = ctx.found[sig]['case']
             minimal = [tuple(s) for s in case['minimal_steps']]
             res, tainted = zyg.run(minimal)
             ref, _ = zyg.run([('m', m) for m in modseq_of(minimal)] + [minimal[-1]])
             ctx.count('confirmations_in_fresh_forks')
-            case['confirmed_in_fresh_forks'] = dict(history=json.loads(res[-1]), alone=json.loads(ref[-1]))
-            if tainted or res[-1] == ref[-1]: unconfirmed += 1; case['confirmed_in_fresh_forks']['reproduced'] = False
-        if unconfirmed:
-            bad = [s for s in sorted(ctx.found) if ctx.found[s]['case']['confirmed_in_fresh_forks'].get('reproduced') is False]
-            raise core.HarnessError('%d mismatch shape(s) seen in the workers do not reproduce in fresh forked processes '
-                                    '(the in-process emulation of a cold process is incomplete): %s' % (unconfirmed, bad[:3]))
+            ok = not tainted and res[-1] != ref[-1]
+            case['confirmed_in_fresh_forks'] = dict(history=json.loads(res[-1]), alone=json.loads(ref[-1]), reproduced=ok)
+            if not ok:
+                # seen by a worker but not by a fresh process: state outside the restored containers leaked from an
+                # earlier history of that worker. Still reported (never silently dropped), under its own signature.
+                ctx.count('shapes_not_reproduced_in_fresh_forks')
+                nsig = ('history|differs in a worker although the pristine content of all pony containers was restored, '
+                        'not reproduced by the same history in a fresh process|then %s' % P.POOL[minimal[-1][1]].kind)
+                e = ctx.found.pop(sig)
+                if nsig in ctx.found: ctx.found[nsig]['n'] += e['n']
+                else: ctx.found[nsig] = e
     finally:
         zyg.close()
     ctx.count('zygote_forks', zyg.forks)
